@@ -948,7 +948,19 @@ func (e *Exec) callBuiltin(fr *frame, pos token.Pos, fn *ssa.Builtin, args []Val
 				x.entries = nil
 			}
 		case []Value:
-			e.unsupported("clear(slice)")
+			// clear(slice): every element becomes the zero value of the element type
+			var elem types.Type
+			if sig, ok := fn.Type().(*types.Signature); ok && sig.Params().Len() > 0 {
+				if sl, ok := sig.Params().At(0).Type().Underlying().(*types.Slice); ok {
+					elem = sl.Elem()
+				}
+			}
+			if elem == nil {
+				e.unsupported("clear(slice) of unknown element type")
+			}
+			for i := range x {
+				x[i] = e.zero(elem)
+			}
 		}
 		return nil
 	case "ssa:wrapnilchk":
